@@ -1,5 +1,6 @@
 pub mod conv;
 pub mod gen;
+pub mod ival;
 pub mod layout;
 pub mod mon;
 pub mod rng;
